@@ -684,6 +684,13 @@ def absorb(u, g, res, what):
             u.status = 'fail'
     elif vr.get('errors', 0) > 0 and u.status == 'ok':
         u.status, u.reason = 'undecided', '%s: %d errors without a mapped diagnostic' % (what, vr['errors'])
+    # a function under contract that no longer exists: its clauses are gone with it; unless a former caller now fails (then that is
+    # what gets reported), nobody vouches for what it carried
+    gone = getattr(g, 'missing_fns', None)
+    if gone:
+        print('NOTE unit=%s function(s) under contract no longer exist in the source: %s' % (u.name, ', '.join(gone)))
+        if u.status == 'ok':
+            u.status, u.reason = 'undecided', '%s: function(s) under contract no longer exist in the source: %s' % (what, ', '.join(gone))
     # every extracted fn with a body must show up in the breakdown when verification ran cleanly
     if u.status == 'ok':
         missing = [f['fn'] for f in u.functions if f['success'] is None and f.get('contract')]
